@@ -619,14 +619,29 @@ theorem cvCall_pub (d : HostDesc) (a b : CV) (st : CState) (hp : Pub st) : Pub (
         · exact hp
       · exact hp
 
+theorem evalGetattr_pub (d : HostDesc) (a : CV) (n : String) (hn : ¬ (n.startsWith "_" = true)) (st : CState)
+    (hp : Pub st) : Pub (evalGetattr d a n st).2 := by
+  unfold evalGetattr
+  dsimp only
+  split
+  · intro p hm
+    simp only [List.mem_append, List.mem_singleton] at hm
+    rcases hm with hm | hm
+    · exact hp p hm
+    · rw [hm]; exact hn
+  · exact hp
+
 theorem concreteHost_ok (d : HostDesc) : HostOK (concreteHost d) Pub :=
-  ⟨fun _ _ _ _ h => h, fun a b t h => cvCall_pub d a b t h, fun _ _ _ h => h, fun _ _ h => h,
+  ⟨fun a n hn t h => evalGetattr_pub d a n hn t h, fun a b t h => cvCall_pub d a b t h, fun _ _ _ h => h, fun _ _ h => h,
    fun _ _ h => h, fun _ _ _ _ h => h, fun _ _ h => h, fun _ _ h => h⟩
 
 /-- On the concrete host of the correspondence stream — sentinel objects with private attributes, callable
-    attributes, and the model of `_safe_format` / `_safe_format_map` with field traversal — NO host operation
-    reads an underscore attribute during any evaluation: together with `no_underscore_getattr` this is C19's
-    "never reads an underscore attribute" for this host, for every token list and every environment. -/
+    attributes, a generator with its frame / code object / namespaces, and the model of `_safe_format` /
+    `_safe_format_map` with field traversal — every ATTRIBUTE read on a sentinel or a reflective object, whether issued
+    by the evaluator (`evalGetattr`) or inside the host operation `call` (format traversal, `hostGetattr`), is recorded
+    in the host state, and none has an underscore name: C19's "never reads an underscore attribute" for this host, for
+    every token list and every environment.  (Index steps of format fields — `[__builtins__]`, `[_name]` on a
+    namespace — are not attribute reads and are not recorded; see `format_reads_private_global_witness`.) -/
 theorem concrete_host_no_underscore (d : HostDesc) (locals globals : Env CV) (tokens : List Tok) :
     ∀ p ∈ (eval (concreteHost d) locals globals tokens []).2.hs, ¬ (p.2.startsWith "_" = true) := by
   have inv := inv_eval (h := concreteHost d) (locals := locals) (globals := globals)
